@@ -60,6 +60,14 @@ RULE = ("cases: recipes over generated CSV files (0-7 records, 1-4 columns, quot
         "text; recipes that include recipe files from other folders, each reading its own d0; update input files of any "
         "name (upper-case suffix, .txt, no suffix, ...) passed as str / Path / open file / StringIO; CSV datasets under "
         "file names with blanks, several dots, non-ASCII, sub-folders. "
+        "Round 5: Dataset calls written inside a `macro` that 2-3 templates include (field, macro including the macro, friend / "
+        "nested template the macro brings along, macro included by such a template, two macros in one include list; includers as "
+        "siblings / friends / nested objects / for_each templates; named calls shared by design) - the harness expands the macros as "
+        "Datasets.v include_macro does (offset i*500), the expanded recipe is compared with the model and every inclusion's call site "
+        "judged on its own; one call said again through YAML aliases; headers with near-twin column names (different under "
+        "str.lower, equal under casefold / upper / NFKC / NFC / accent stripping / blanks) and other non-ASCII names through iterate, "
+        "shuffle, for_each with every column projected, update mode, CSV and SQL, macros, and the bare CSV iterator with attribute "
+        "look-ups (model case CRec). "
         "non-trivial: some dataset with >= 2 records is drawn from at least twice (wrap-around, cycle, "
         "for_each) or is over-consumed, or an arbitrary text with >= 2 rows; distinct by case hash")
 TRUSTED = ["harness/oracle_random.py: random.Random._randbelow patched so that runs are reproducible from the case",
@@ -74,7 +82,11 @@ TRUSTED = ["harness/oracle_random.py: random.Random._randbelow patched so that r
 ASSUMPTIONS = ["UTF-8 decoding of the file (code points in, code points out) and SQLAlchemy+SQLite delivering the stored "
                "rows in storage order with every cell intact are library code: sampled by every case, not proved; the CSV "
                "record reader itself (line splitting, BOM, quoting, blank lines, DictReader) is modelled and proved",
-               "header names of a CSV file are distinct (a record is modelled as its cells in header order)",
+               "header names of a dataset are distinct, also under str.lower() (names that differ only in case are one key of "
+               "Snowfakery's case-insensitive record by design); inside the recipe model a record is its cells in header order, the "
+               "record-by-name model (CRec) is given the names folded by Python's str.lower",
+               "rows of a template that a macro brings into several including templates (same table name) are written next to the "
+               "row of their including template: nested objects before it, friends after it",
                "a shuffled pass (random.shuffle / SQLite ORDER BY random()) is some permutation of the records; the model "
                "represents it as Fisher-Yates over an arbitrary oracle stream and the theorems hold for every stream",
                "the dataset file does not change while a recipe runs (between the runs of one process it may: sampled by the "
@@ -86,6 +98,47 @@ ASSUMPTIONS = ["UTF-8 decoding of the file (code points in, code points out) and
 EXHAUSTIVE = {"quick": False, "thorough": True}
 
 NAMES = ["a", "b", "c", "d", "City", "Zip_Code", "k1", "Name", "X", "oid"]
+# Round 5: column names that are DIFFERENT columns (different under str.lower(), the folding Snowfakery's
+# case-insensitive record documents) but near-twins under some other folding: str.casefold() (sharp s, final sigma,
+# long s, ligatures, micro sign, 'n preceded by apostrophe), str.upper() (dotless i), NFKC (ligature, full-width
+# letters), NFC / NFD (composed / decomposed accent), accent stripping, transliteration, blanks / underscores,
+# trailing blank.  A header takes two or more members of a group.
+TWINS = [["Stra\u00dfe", "Strasse"], ["Ma\u00df", "Mass", "Masse"], ["gro\u00df", "gross", "GROSZ"],
+         ["\u03bf\u03b4\u03cc\u03c2", "\u03bf\u03b4\u03cc\u03c3"], ["\ufb01le", "file", "\ufb00"],
+         ["\u017ftop", "stop"], ["k\u0131z", "kiz", "K\u0130Z"], ["caf\u00e9", "cafe\u0301", "cafe"],
+         ["\u0149a", "\u02bcna"], ["\uff4e\uff41\uff4d\uff45", "name"], ["\u00b5m", "\u03bcm"],
+         ["Z\u00fcrich", "Zurich", "Zuerich"], ["na\u00efve", "naive"], ["Zip Code", "Zip_Code", "ZipCode", "Zip-Code"],
+         ["Ort", "Ort ", " Ort"], ["\u00c5r", "Ar", "A\u030ar", "Aar"], ["pre\u00e7o", "preco"],
+         ["\u0438\u043c\u044f", "\u0438\u043c\u0458\u0430"], ["x\u00b2", "x2"], ["\u01c6", "dz\u030c", "d\u017e"]]
+LONERS = ["\u540d\u524d", "\u05e9\u05dd", "K\u00f6ln", "\u00e9t\u00e9", "\u00d1", "\U0001F600", "a", "City", "oid", "k1", "No."]
+
+
+def distinct_columns(header):
+    """the header names are pairwise different columns: exactly different AND different under str.lower() (names
+    that differ only in case are one key of Snowfakery's case-insensitive record by design; kept out)"""
+    return len({h.lower() for h in header}) == len(header)
+
+
+def gen_header(rng, ncols=None):
+    """2-5 column names with at least one pair of near-twins (see TWINS), in any order"""
+    for _ in range(50):
+        ncols = ncols or rng.choice([2, 2, 3, 3, 4, 5])
+        out = []
+        for g in rng.sample(TWINS, rng.choice([1, 1, 2])):
+            out += rng.sample(g, rng.randint(2, len(g)))
+        out = out[:ncols] if len(out) > ncols and rng.random() < 0.7 else out
+        while len(out) < ncols:
+            out.append(rng.choice(LONERS + NAMES) if rng.random() < 0.7 else rng.choice(rng.choice(TWINS)))
+        rng.shuffle(out)
+        if len(set(out)) == len(out) and distinct_columns(out):
+            return out
+    return ["Stra\u00dfe", "Strasse"]
+
+
+def case_variant(rng, h):
+    """the same column name in another spelling of its case (same key under str.lower())"""
+    cands = [v for v in (h.upper(), h.lower(), h.swapcase(), h.title()) if v != h and v.lower() == h.lower()]
+    return rng.choice(cands) if cands else h
 _ROWS = []
 _CAP = [1500]
 
@@ -426,11 +479,16 @@ def gen_consumer_case(rng, n=None, m=None, mode=None, repeat="?", src=None, plac
 
 
 def pick_pass(rng, ds, allow_missing=False):
-    cols = [h for h, s in zip(ds["header"], ds["safe"]) if s]
+    # projected through ${{var.Name}}: names the template language can spell as an attribute
+    cols = [h for h, s in zip(ds["header"], ds["safe"]) if s and h.isidentifier()]
     k = rng.randint(0, len(cols))
     out = []
     for h in rng.sample(cols, k):
-        out.append(h.upper() if rng.random() < 0.2 else h)
+        up = rng.random() < 0.2
+        if up and h.upper().lower() != h.lower():
+            out.append(case_variant(rng, h))       # e.g. sharp s: its upper case is another name
+        else:
+            out.append(h.upper() if up else h)
     if allow_missing and rng.random() < 0.08:
         out.append("nosuch")
     return out
@@ -501,14 +559,262 @@ def gen_scope_case(rng):
             "tick": True, "raw": [rng.randint(0, 10 ** 6) for _ in range(80)]}
 
 
+# ---------------------------------------------------------------- round 5: macros, column-name twins
+def macro_uses(case):
+    """the Dataset calls as they are written in the macro definitions (for rendering)"""
+    for m in case.get("macros", []):
+        for _sid, u in m["sites"]:
+            yield u
+        for t in m["nested"] + m["friends"]:
+            for _sid, u in t["sites"]:
+                yield u
+
+
+def _inst_sites(sites, off, macro):
+    import copy
+    return [[off + msid, dict(copy.deepcopy(u), macro=macro, fld="s%d" % msid)] for msid, u in sites]
+
+
+def expand_macro(mdefs, name, off, owner):
+    """what `include: name` contributes to a template, every inclusion parsed afresh: (sites, nested, friends)
+    with call sites and templates of their own (the macro's local numbers + the offset of this inclusion, as in
+    Datasets.v include_macro / shift_tmpl); a template defined inside a macro keeps the
+    table name the macro gives it (`table`) and remembers the including template (`owner`) and how it hangs
+    below it (`mrel`).  Fields / friends of included macros come first, as parse_inclusions puts them."""
+    m = mdefs[name]
+    sites, nested, friends = [], [], []
+    for inc in m.get("include", []):
+        a, b, c = expand_macro(mdefs, inc, off, owner)
+        sites += a
+        nested += b
+        friends += c
+    sites += _inst_sites(m["sites"], off, name)
+    for rel, src, dst in (("nested", m["nested"], nested), ("friend", m["friends"], friends)):
+        for td in src:
+            t2 = tmpl(off + td["tid"], td["loop"])
+            t2.update(table=td["tid"], macro=name, owner=owner, mrel=rel)
+            for inc in td.get("include", []):
+                a, b, c = expand_macro(mdefs, inc, off, t2["tid"])
+                assert not b and not c, "macros included by a template inside a macro hold fields only"
+                t2["sites"] += a
+            t2["sites"] += _inst_sites(td["sites"], off, name)
+            dst.append(t2)
+    return sites, nested, friends
+
+
+def include_macros(mdefs, t, names, fresh):
+    """template t says `include: names`: the expansion goes in front of its own fields / friends"""
+    t["include"] = list(names)
+    sites, nested, friends = [], [], []
+    for nm in names:
+        a, b, c = expand_macro(mdefs, nm, 500 * fresh(), t["tid"])      # inclusion number i: offset i * B, B = 500
+        sites += a
+        nested += b
+        friends += c
+    t["sites"] = sites + t["sites"]
+    t["nested"] = nested + t["nested"]
+    t["friends"] = friends + t["friends"]
+    return t
+
+
+MACRO_CONTENT = ["field", "field", "chained", "chained", "friend", "nested", "field+friend", "field+nested",
+                 "tmpl_includes", "two_macros"]
+MACRO_PLACE = ["siblings", "siblings", "parent_friends", "top_and_friend", "parent_nested", "nested_in_includer"]
+
+
+def gen_macro_case(rng, header=None, content=None, place=None, n=None):
+    """Dataset.iterate / Dataset.shuffle written inside a `macro` that two or more templates include (directly,
+    through a macro that includes the macro, in a friend / nested template the macro brings along, in a macro that
+    such a template includes): every inclusion is a consumer of its own — an unnamed call hands ITS template record
+    k mod n on that template's k-th use, whatever the other including templates consume; calls with a `name` share
+    one iterator, as anywhere else.  The case holds the recipe with the macros expanded (the model's view: fresh
+    call site per inclusion) and the macro definitions (what is written into the recipe file)."""
+    content = content or rng.choice(MACRO_CONTENT)
+    has_tmpl = content in ("friend", "nested", "field+friend", "field+nested", "tmpl_includes")
+    n = (rng.choice([1, 2, 2, 3, 3, 4, 5]) if has_tmpl or rng.random() < 0.9 else 0) if n is None else n
+    src = rng.choice(["csv", "csv", "sql"])
+    pk = rng.choice(PK_KINDS) if (src == "sql" and rng.random() < 0.4) else None
+    ds = gen_dataset(rng, n, distinct=True, pk=pk, header=header)
+    datasets = {"d0": ds}
+    mode = rng.choice(["iterate", "iterate", "shuffle"])
+    rep = rng.choice([None, None, True]) if has_tmpl else rng.choice([None, None, True, False])
+    tbl = rng.random() < 0.6
+    shared_name = rng.choice(DS_NAMES) if rng.random() < 0.12 else None
+
+    def call(mode_=None):
+        u = use("d0", src, mode_ or mode, rep, table=tbl, name=shared_name)
+        if rng.random() < 0.04:
+            u["extra"] = [list(rng.choice(IGNORED_KW))]
+        return u
+
+    inner_loop = lambda: rng.choice([["default"], ["count", 1], ["count", 2]])
+    mA = {"name": "mA", "include": [], "sites": [], "nested": [], "friends": []}
+    macros = [mA]
+    inc_names = ["mA"]
+    if content in ("field", "chained", "field+friend", "field+nested", "two_macros", "tmpl_includes"):
+        mA["sites"].append([101, call()])
+        if rng.random() < 0.2:
+            mA["sites"].append([102, call(rng.choice(["iterate", "shuffle"]))])
+    if content == "chained":
+        mB = {"name": "mB", "include": ["mA"], "sites": [[103, call()]] if rng.random() < 0.4 else [], "nested": [], "friends": []}
+        macros.append(mB)
+        inc_names = ["mB"]
+        if rng.random() < 0.4:
+            macros.append({"name": "mC", "include": ["mB"], "sites": [], "nested": [], "friends": []})
+            inc_names = ["mC"]
+    if content in ("friend", "field+friend"):
+        mA["friends"].append(tmpl(50, inner_loop(), sites=[[104, call()]]))
+    if content in ("nested", "field+nested"):
+        mA["nested"].append(tmpl(51, inner_loop(), sites=[[105, call()]]))
+    if content == "tmpl_includes":
+        # a template the macro mB brings along includes the macro mA itself
+        td = tmpl(52, inner_loop())
+        td["include"] = ["mA"]
+        rel = rng.choice(["friends", "nested"])
+        mB = {"name": "mB", "include": [], "sites": [], "nested": [], "friends": []}
+        mB[rel].append(td)
+        macros.append(mB)
+        inc_names = ["mB"]
+    if content == "two_macros":
+        d1 = gen_dataset(rng, rng.randint(1, 4), distinct=True)
+        datasets["d1"] = d1
+        macros.append({"name": "mD", "include": [], "sites": [[106, use("d1", "csv", rng.choice(["iterate", "shuffle"]), None)]],
+                       "nested": [], "friends": []})
+        inc_names = ["mA", "mD"] if rng.random() < 0.5 else ["mD", "mA"]
+    mdefs = {m["name"]: m for m in macros}
+    counter = [0]
+    fresh = lambda: _sid(counter)
+    k = rng.choice([2, 2, 3])
+    nested_content = any(m["nested"] for m in macros)
+    place = place or rng.choice(MACRO_PLACE)
+    if nested_content and place in ("parent_nested", "nested_in_includer"):
+        place = "siblings"           # rows of a macro's nested template are told apart by the includer row that follows
+    incs = []
+    for i in range(k):
+        names = inc_names
+        if content == "chained" and rng.random() < 0.3:
+            names = ["mA"]                         # some include the inner macro directly
+        if content == "tmpl_includes" and i == k - 1 and rng.random() < 0.5:
+            names = ["mA"]
+        loop = ["count", rng.randint(1, 3)] if rng.random() < 0.8 else ["default"]
+        t = tmpl(i + 1, loop, nick=rng.random() < 0.15)
+        if not nested_content and rng.random() < 0.2:
+            t["sites"] = [[i + 1, use("d0", rng.choice(["csv", src]), rng.choice(["iterate", "shuffle"]), None)]]
+        incs.append(include_macros(mdefs, t, names, fresh))
+    if rng.random() < 0.15 and not has_tmpl:
+        # one including template is a for_each template (the macro's field is its own field)
+        d1 = datasets.get("d1") or gen_dataset(rng, rng.randint(1, 3), distinct=True)
+        datasets["d1"] = d1
+        incs[-1]["loop"] = ["foreach", use("d1", "csv", "iterate", None)]
+    if place == "siblings":
+        recipe = incs
+        if rng.random() < 0.25:
+            # a template that writes the same call itself, between the including ones
+            recipe = incs[:1] + [tmpl(9, ["count", rng.randint(1, 2)], sites=[[9, call()]])] + incs[1:]
+    elif place == "parent_friends":
+        recipe = [tmpl(8, ["count", rng.randint(1, 2)], friends=incs)]
+    elif place == "top_and_friend":
+        incs[0]["friends"] = incs[0]["friends"] + incs[1:]
+        recipe = [incs[0]]
+    elif place == "parent_nested":
+        recipe = [tmpl(8, ["count", rng.randint(1, 2)], nested=incs)]
+    else:
+        incs[0]["nested"] = incs[0]["nested"] + incs[1:]
+        recipe = [incs[0]]
+    iters = rng.choice([1, 2, 2, 3])
+    if mode == "shuffle" and n:
+        iters = max(iters, -(-n // max(1, min((t["loop"][1] if t["loop"][0] == "count" else 1) for t in incs))))
+        iters = min(iters, 6)
+    return {"kind": "run", "datasets": datasets, "recipe": recipe, "macros": macros, "iters": iters, "tick": True,
+            "raw": _raw(rng), "shape": "macro/%s/%s" % (content, place)}
+
+
+def gen_alias_case(rng):
+    """one Dataset call written once and referred to by YAML aliases (`s1: &c1 ...` / `s2: *c1`) from other fields /
+    templates: the YAML loader hands the parser the SAME node for every alias, yet every field that says it is a
+    call site of its own (unnamed: its own iterator from record 0; named: shared through the name as always)"""
+    import copy
+    n = rng.choice([1, 2, 2, 3, 4, 5])
+    src = rng.choice(["csv", "csv", "sql"])
+    ds = gen_dataset(rng, n, distinct=True)
+    mode = rng.choice(["iterate", "iterate", "shuffle"])
+    u1 = use("d0", src, mode, rng.choice([None, None, True, False]), table=rng.random() < 0.6,
+             name=rng.choice(DS_NAMES) if rng.random() < 0.1 else None)
+    u1["anchor"] = "c1"
+
+    def again():
+        u = copy.deepcopy(u1)
+        del u["anchor"]
+        u["alias"] = "c1"
+        return u
+
+    cnt = lambda: ["count", rng.randint(1, 3)]
+    shape = rng.choice(["siblings", "siblings", "row", "friend", "nested", "three"])
+    if shape == "siblings":
+        recipe = [tmpl(1, cnt(), sites=[[1, u1]]), tmpl(2, cnt(), sites=[[2, again()]])]
+    elif shape == "row":
+        recipe = [tmpl(1, cnt(), sites=[[1, u1], [2, again()]])]
+    elif shape == "friend":
+        recipe = [tmpl(1, cnt(), sites=[[1, u1]], friends=[tmpl(2, cnt(), sites=[[2, again()]])])]
+    elif shape == "nested":
+        recipe = [tmpl(1, cnt(), sites=[[1, u1]], nested=[tmpl(2, cnt(), sites=[[2, again()]])])]
+    else:
+        recipe = [tmpl(1, cnt(), sites=[[1, u1]]), tmpl(2, cnt(), sites=[[2, again()]], friends=[tmpl(3, cnt(), sites=[[3, again()]])])]
+    iters = rng.choice([1, 2, 3]) if mode == "iterate" else rng.randint(max(1, n // 2), n + 1)
+    return {"kind": "run", "datasets": {"d0": ds}, "recipe": recipe, "iters": iters, "tick": True, "raw": _raw(rng),
+            "shape": "yaml_alias/" + shape}
+
+
+def gen_columns_case(rng):
+    """a dataset whose header holds near-twin column names (TWINS: different columns that some folding other than
+    str.lower() would identify) and other non-ASCII names, read through every route: Dataset.iterate / shuffle
+    fields (the whole record is observed), for_each (record + projected columns, also under another case
+    spelling), update mode (input.X and pass-through fields), CSV file and SQL table, inside macros, through the
+    bare CSV iterator"""
+    header = gen_header(rng)
+    r = rng.random()
+    if r < 0.3:
+        c = gen_consumer_case(rng, header=header, n=rng.randint(1, 5))
+    elif r < 0.6:
+        c = gen_foreach_case(rng, header=header, n=rng.randint(1, 5))
+    elif r < 0.8:
+        c = gen_update_case(rng, header=header, n=rng.randint(1, 5))
+    elif r < 0.9:
+        c = gen_macro_case(rng, header=header)
+    else:
+        eol = rng.choice(["\n", "\r\n"])
+        k = rng.randint(1, 4)
+        body = eol.join(",".join(rng.choice(["a", "b", "xy", "\u00e9", "0", ""]) for _ in header) for _ in range(k))
+        ds = {"text": ",".join(header) + eol + body + eol, "bom": rng.random() < 0.3, "header": [], "rows": [], "safe": []}
+        # names looked up on every record (what ${{row.X}} does): the header names, other case spellings of them, the
+        # near-twins that are NOT in the header (must be missing, not answered by a neighbour), a name nobody has
+        probes = list(header) + [case_variant(rng, h) for h in header]
+        probes += [x for g in TWINS if any(h in g for h in header) for x in g if x not in header] + ["nosuch"]
+        probes = [p_ for i, p_ in enumerate(probes) if p_ not in probes[:i]]
+        return {"kind": "csv", "datasets": {"d0": ds}, "recipe": [], "iters": 1, "raw": [], "probes": probes,
+                "shape": "twin_columns/bare_csv"}
+    # project (nearly) every column that the template language can name, some under another case spelling
+    ds = c["datasets"]["d0"]
+    full = [(case_variant(rng, h) if rng.random() < 0.15 else h) for h, sf in zip(ds["header"], ds["safe"]) if sf and h.isidentifier()]
+    if rng.random() < 0.7:
+        if c["kind"] == "update":
+            c["passthrough"] = full
+        else:
+            for t, _b in walk(c["recipe"]):
+                if t["loop"][0] == "foreach" and t["loop"][1]["ds"] == "d0" and t["pass"] is not None and "nosuch" not in t["pass"]:
+                    t["pass"] = list(full)
+    c["shape"] = "twin_columns/" + c["kind"] + ("/" + c["shape"] if c.get("shape") else "")
+    return c
+
+
 INPUT_NAMES = ["D0.CSV", "d0.Csv", "contacts_export.txt", "input", "data.csv.bak", "in put.tsv", ".csv", "x.csv.txt",
                "Z\u00fcrich.CSV", "export.dat", "upd.csv", "UPD.csv"]
 INPUT_AS = ["str", "path", "stream_file", "stream_mem"]
 
 
-def gen_update_case(rng, n=None):
+def gen_update_case(rng, n=None, header=None):
     n = rng.randint(0, 7) if n is None else n
-    ds = gen_dataset(rng, n, short=rng.random() < 0.1, distinct=rng.random() < 0.6)
+    ds = gen_dataset(rng, n, short=rng.random() < 0.1, distinct=rng.random() < 0.6, header=header)
     t = tmpl(1, ["default"], nick=rng.random() < 0.4)
     r = rng.random()
     recipe = [t]
@@ -1139,6 +1445,13 @@ def generate(rng, tier):
     cases.extend(big_cases(rng, tier))
     if tier == "thorough":
         cases.extend(exhaustive_cases(rng))
+    # round 5 (appended, so that the cases above stay what they were)
+    for _ in range(60 * k):
+        cases.append(gen_macro_case(rng))
+    for _ in range(60 * k):
+        cases.append(gen_columns_case(rng))
+    for _ in range(15 * k):
+        cases.append(gen_alias_case(rng))
     return cases
 
 
@@ -1190,7 +1503,7 @@ def _render_use(u, indent, root):
 def _render_tmpl(t, indent, root, var_override=None):
     pad = " " * indent
     tid = t["tid"]
-    lines = [f"{pad}- object: T{tid}"]
+    lines = [f"{pad}- object: T{t.get('table', tid)}"]
     if t.get("nick"):
         lines.append(f"{pad}  nickname: n{tid}")
     loop = t["loop"]
@@ -1201,15 +1514,24 @@ def _render_tmpl(t, indent, root, var_override=None):
         lines += [f"{pad}  for_each:", f"{pad}    var: v{tid}", f"{pad}    value:"]
         lines += _render_use(loop[1], indent + 6, root)
         var = var or f"v{tid}"
+    if t.get("include"):
+        lines.append(f"{pad}  include: {', '.join(t['include'])}")
     lines.append(f"{pad}  fields:")
     for sid, u in t["sites"]:
+        if u.get("macro"):
+            continue                      # brought along by `include:` (written in the macro)
         if u.get("rowdyn"):
             lines.append(f"{pad}    a{sid}: {u['rowdyn']['expr']}")      # the dataset this row names (observable)
-        lines.append(f"{pad}    s{sid}:")
+        if u.get("alias"):
+            lines.append(f"{pad}    s{sid}: *{u['alias']}")          # the call written at the anchor, said again
+            continue
+        lines.append(f"{pad}    s{sid}:" + (f" &{u['anchor']}" if u.get("anchor") else ""))
         lines += _render_use(u, indent + 6, root)
     for fname, expr in t.get("extra", []):
         lines.append(f"{pad}    {fname}: {expr}")
     for ch in t["nested"]:
+        if ch.get("macro"):
+            continue
         lines.append(f"{pad}    n{ch['tid']}:")
         lines += _render_tmpl(ch, indent + 6, root)
     if var:
@@ -1218,10 +1540,30 @@ def _render_tmpl(t, indent, root, var_override=None):
     if var:
         for j, name in enumerate(t["pass"]):
             lines.append(f"{pad}    p{j}: ${{{{{var}.{name}}}}}")
-    if t["friends"]:
+    own_friends = [f for f in t["friends"] if not f.get("macro")]
+    if own_friends:
         lines.append(f"{pad}  friends:")
-        for f in t["friends"]:
+        for f in own_friends:
             lines += _render_tmpl(f, indent + 4, root)
+    return lines
+
+
+def _render_macro(m, root):
+    lines = [f"- macro: {m['name']}"]
+    if m.get("include"):
+        lines.append(f"  include: {', '.join(m['include'])}")
+    if m["sites"] or m["nested"]:
+        lines.append("  fields:")
+    for sid, u in m["sites"]:
+        lines.append(f"    s{sid}:")
+        lines += _render_use(u, 6, root)
+    for ch in m["nested"]:
+        lines.append(f"    n{ch['tid']}:")
+        lines += _render_tmpl(ch, 6, root)
+    if m["friends"]:
+        lines.append("  friends:")
+        for f in m["friends"]:
+            lines += _render_tmpl(f, 4, root)
     return lines
 
 
@@ -1230,6 +1572,8 @@ def render_recipe(case, root):
     lines = ["- plugin: snowfakery.standard_plugins.datasets.Dataset"]
     if case.get("tick") and case["kind"] == "run":
         lines.append("- object: Tick")
+    for m in case.get("macros", []):        # macros are written before the templates that include them
+        lines += _render_macro(m, root)
     files = {}
     for t in case["recipe"]:
         inc = t.get("inc")
@@ -1283,6 +1627,7 @@ def _run_csv(case, root):
         out["skip"] = f"{type(e).__name__}: {e}"[:120]
         return out
     recs = []
+    looks = []
     try:
         try:
             for r in it:
@@ -1291,6 +1636,18 @@ def _run_csv(case, root):
                     out["skip"] = "record without .result mapping"
                     break
                 recs.append([[k, v] for k, v in res.items()])
+                if case.get("probes"):
+                    row = []
+                    for p_ in case["probes"]:            # what ${{row.<name>}} evaluates: attribute access
+                        try:
+                            v = getattr(r, p_)
+                            row.append(v if (v is None or isinstance(v, str)) else {"other": repr(v)[:40]})
+                        except Exception as e:             # no such column: KeyError / AttributeError / a DataGenError
+                            if isinstance(e, (KeyError, AttributeError)) or C.canon_exc(e) == "DGE":
+                                row.append({"missing": 1})
+                            else:
+                                row.append({"other": type(e).__name__})
+                    looks.append(row)
                 if len(recs) > 500:
                     break
         except BaseException as e:
@@ -1302,6 +1659,8 @@ def _run_csv(case, root):
         except Exception:
             pass
     out["records"] = recs
+    if case.get("probes"):
+        out["lookups"] = looks
     return out
 
 
@@ -1375,7 +1734,7 @@ def _materialise(case, base, regen="fresh"):
                 [(name, None, case["datasets"][name]["header"], case["datasets"][name]["rows"], None) for name in multi], regen)
     ctx = Ctx(base)
     ctx.rel = case.get("url") == "rel"
-    for _k, _t, _s, u, _b in uses:
+    for u in [u for _k, _t, _s, u, _b in uses] + list(macro_uses(case)):
         u.pop("_fname", None)
         if "/" not in u["ds"] and case["datasets"][u["ds"]].get("fname"):
             u["_fname"] = case["datasets"][u["ds"]]["fname"]
@@ -1470,7 +1829,9 @@ def _align(recpairs, ds):
         recpairs = [[k, (str(v["int"]) if (k == header[0] and isinstance(v, dict) and "int" in v) else v)] for k, v in recpairs]
     keys = [k for k, _ in recpairs]
     if sorted(keys) != sorted(header):
-        raise Undecodable(f"record keys {keys} differ from the header {header}")
+        lost = [h for h in header if h not in keys]
+        raise Undecodable(f"record keys {keys} differ from the header {header}" +
+                          (f": column(s) {lost} of the dataset did not arrive" if lost else ""))
     d = dict((k, v) for k, v in recpairs)
     cells = [d[h] for h in header]
     for c in cells:
@@ -1479,15 +1840,54 @@ def _align(recpairs, ds):
     return cells
 
 
+def _attribute(obs, tinfo):
+    """the template every written row belongs to.  A table name stands for one template, except for templates
+    that a macro brings along into several including templates: their rows (same table name) belong to the
+    inclusion whose row is written next (nested object: written before the row that contains it) / was written
+    last (friend: written after its row)."""
+    by_table = {}
+    for t in tinfo.values():
+        by_table.setdefault("T%d" % t.get("table", t["tid"]), []).append(t)
+    owners = {t["owner"] for t in tinfo.values() if "owner" in t}
+    out = [None] * len(obs["rows"])
+    last_owner, pending = None, []
+    for i, (table, _vals) in enumerate(obs["rows"]):
+        cands = by_table.get(table)
+        if not cands:
+            raise Undecodable(f"row of unknown table {table}")
+        if len(cands) == 1:
+            t = cands[0]
+        elif cands[0].get("mrel") == "friend":
+            t = next((c for c in cands if c.get("owner") == last_owner), None)
+            if t is None:
+                raise Undecodable(f"row of {table} (friend brought along by a macro) not behind a row of an including template")
+        else:
+            pending.append(i)
+            continue
+        out[i] = t
+        if t["tid"] in owners:
+            last_owner = t["tid"]
+            still = []
+            for j in pending:
+                c = next((c for c in by_table[obs["rows"][j][0]] if c.get("owner") == t["tid"]), None)
+                if c is None:
+                    still.append(j)
+                else:
+                    out[j] = c
+            pending = still
+    for j in pending:
+        if not obs.get("err"):
+            raise Undecodable(f"row of {obs['rows'][j][0]} (nested object brought along by a macro) without a row of an including template")
+        out[j] = by_table[obs["rows"][j][0]][0]
+    return out
+
+
 def decode(case, obs):
     """rows of the observation as dicts {tid, fe, ci, cons: [(sid, cells)], pas: [text]}"""
     top, _ = effective_top(case)
     tinfo = {t["tid"]: t for t, _ in walk(top or case["recipe"])}
     rows = []
-    for table, vals in obs["rows"]:
-        if not (table.startswith("T") and table[1:].isdigit() and int(table[1:]) in tinfo):
-            raise Undecodable(f"row of unknown table {table}")
-        t = tinfo[int(table[1:])]
+    for (table, vals), t in zip(obs["rows"], _attribute(obs, tinfo)):
         row = {"tid": t["tid"], "fe": None, "cons": [], "pas": [], "names": {}}
         try:
             row["ci"] = int(str(vals.get("ci")))
@@ -1511,7 +1911,7 @@ def decode(case, obs):
                     raise Undecodable(f"projected column {name} is {v}")
                 row["pas"].append(str(v))
         for sid, u in t["sites"]:
-            v = vals.get(f"s{sid}")
+            v = vals.get(u.get("fld") or f"s{sid}")
             if not (isinstance(v, dict) and "rec" in v):
                 raise Undecodable(f"field s{sid} is not a dataset record: {v!r}")
             dsname = u["ds"]
@@ -1702,7 +2102,30 @@ def c_files(case):
     return C.clist(c_file(case["datasets"][name]) for name in used)
 
 
+def coq_rec_case(case, obs):
+    """CRec: the records of the file (reference reader) turned into the model's case-insensitive record, names
+    folded by Python's str.lower; expected = the items and look-ups the implementation's records gave"""
+    rows = reader_rows(case["datasets"]["d0"])
+    header, want, failed = dict_records(rows)
+    if failed or not header or not distinct_columns(header) or obs.get("err") or len(obs["records"]) != len(want):
+        return None
+    exp = []
+    for rec, row in zip(obs["records"], obs["lookups"]):
+        if not all(isinstance(k, str) and (v is None or isinstance(v, str)) for k, v in rec):
+            return None
+        if not all(v is None or isinstance(v, str) or v == {"missing": 1} for v in row):
+            return None
+        items = C.clist(f"({c_text(k)}, {c_cell(v)})" for k, v in rec)
+        looks = C.clist("None" if isinstance(v, dict) else f"(Some {c_cell(v)})" for v in row)
+        exp.append(f"({items}, {looks})")
+    hd = C.clist(f"({c_text(h.lower())}, {c_text(h)})" for h in header)
+    recs = C.clist(c_rec([v for _k, v in r]) for r in want)
+    return f"CRec {hd} {recs} {C.clist(c_text(p_.lower()) for p_ in case['probes'])} {C.clist(exp)}"
+
+
 def coq_csv_case(case, obs):
+    if case.get("probes") and "lookups" in obs and "records" in obs and not obs.get("skip"):
+        return coq_rec_case(case, obs)
     ds = case["datasets"]["d0"]
     rows = reader_rows(ds)
     recs = "None"
@@ -1975,6 +2398,14 @@ def oracle_csv(case, obs):
         return f"record: the iterator delivered {obs['records']}, the file holds {want}"
     if failed != (err == "DGE"):
         return f"outcome: over-long row present: {failed}, DataGenError raised: {err == 'DGE'}"
+    if case.get("probes") and "lookups" in obs and header and distinct_columns(header):
+        # every column intact: a name gives the value of THE column it spells (up to case), else nothing
+        for i, (rec, row) in enumerate(zip(want, obs["lookups"])):
+            for p_, got in zip(case["probes"], row):
+                hit = [v for k, v in rec if k.lower() == p_.lower()]
+                exp = hit[0] if hit else {"missing": 1}
+                if got != exp:
+                    return f"record: column {p_!r} of record {i} {rec} is {got!r}, the file has {exp!r}"
     return None
 
 
@@ -2066,6 +2497,11 @@ def oracle(case, obs):
             msg = _check_draws([dict(r["cons"])[sid] for r in trows], data, u)
             if msg:
                 where = " (below a for_each)" if rc else ""
+                if u.get("macro"):
+                    where += (f" (field {u['fld']} written in macro {u['macro']}, this inclusion's table T{t.get('table', t['tid'])}"
+                              f"{' under T%d' % t['owner'] if 'owner' in t else ''})")
+                if u.get("alias") or u.get("anchor"):
+                    where += " (one YAML node said by several fields through an alias)"
                 return f"iterate: call site s{sid} of T{t['tid']}{where}: {msg}"
         else:
             # for_each: every evaluation writes the records in order (or each once), child_index 0..n-1
@@ -2273,6 +2709,27 @@ def stats(cases, obss):
         if c.get("shape"):
             shapes[c["shape"]] += 1
         feats["two_iterations"] += c.get("iters", 1) > 1
+        feats["call_said_again_by_yaml_alias"] += any(u.get("alias") for _k, _t, _s, u, _b in us)
+        if c.get("macros"):
+            inst = Counter((u.get("macro"), u.get("fld"), t.get("table")) for _k, t, _s, u, _b in us if u.get("macro"))
+            feats["macro_with_dataset_call"] += 1
+            feats["macro_call_instantiated_by_2+_inclusions"] += any(v > 1 for v in inst.values())
+            feats["macro_call_instantiated_by_3+_inclusions"] += any(v > 2 for v in inst.values())
+            feats["macro_call_in_template_brought_along(friend/nested)"] += any(t.get("macro") for _k, t, _s, u, _b in us)
+            feats["macro_included_through_macro"] += any(m.get("include") for m in c["macros"])
+            feats["macro_call_unnamed"] += any(u.get("macro") and not u.get("name") for _k, t, _s, u, _b in us)
+            feats["macro_call_named(shared by design)"] += any(u.get("macro") and u.get("name") for _k, t, _s, u, _b in us)
+            feats["macro_call_shuffle"] += any(u.get("macro") and u["mode"] == "shuffle" for _k, t, _s, u, _b in us)
+        for ds in c["datasets"].values():
+            h = ds.get("header") or (reader_rows(ds) or [[]])[0]
+            if any(ord(ch) > 127 for x in h for ch in x):
+                feats["column_name_non_ascii"] += 1
+            import unicodedata as _ud
+            for label, f in (("casefold", str.casefold), ("upper", str.upper), ("NFKC", lambda x: _ud.normalize("NFKC", x)),
+                             ("NFC", lambda x: _ud.normalize("NFC", x)), ("strip", str.strip),
+                             ("accents_removed", lambda x: "".join(ch for ch in _ud.normalize("NFD", x) if not _ud.combining(ch)))):
+                if len({f(x) for x in h}) < len(h) and distinct_columns(h):
+                    feats["columns_twins_under_" + label] += 1
         feats["stopping_criterion_on_dataset_table"] += bool(c.get("target"))
         feats["sql_primary_key"] += any("pk" in ds for ds in c["datasets"].values())
         feats["dataset_named_by_outer_record(oracle only)"] += any(u.get("dyn") for _k, _t, _s, u, _b in all_uses(c))
@@ -2359,6 +2816,8 @@ def directed_search(rng, disagreeing):
             for src in ("csv", "sql"):
                 out.append(gen_foreach_case(rng, n=n, mode=mode, src=src))
         out.append(gen_update_case(rng, n=n))
+    out.extend(gen_macro_case(rng) for _ in range(200))
+    out.extend(gen_columns_case(rng) for _ in range(200))
     out.extend(gen_session_case(rng) for _ in range(150))
     out.extend(gen_include_case(rng) for _ in range(100))
     out.extend(gen_rowdyn_case(rng) for _ in range(150))
